@@ -50,13 +50,13 @@ theorem rcv_solo (mt : Nat) (out : List Delivery) (k : Nat) (fs rxq : List Frame
 theorem poll_window (k c mt : Nat) (hc : c = tpCtsPackets (tpPacketCount m.len))
     (hd : b.s.devs = [db]) (hq : Quiet b.s 0) (hsrc : srcA < 256) (hdst : m.dst = db.source)
     (hnone : findIdx (sessOf srcA db.source) S' = none) (hj : j < S'.length) (hlen : m.len ≤ 223)
-    (hnotp : (b.tp 0).hasPending = false) (hkc : k % c = 0) (hfull : 7 * (k + c) < m.len) :
+    (hnotp : (b.tp 0).hasPending = false) (hib : InfoIdle b 0) (hkc : k % c = 0) (hfull : 7 * (k + c) < m.len) :
     poll (rcv b db m srcA j S' a0 mt [] k [] ((List.range c).map fun y => dtFrame srcA m (k + y))) =
       rcv b db m srcA j S' a0 (millis32 b.s.now) [] (k + c) [cmFrame db.source srcA (ctsBytes m.pgn (tpPacketCount m.len) (k + c + 1))] [] := by
   have hcpos : 0 < c := by rw [hc]; exact tpCtsPackets_pos _
   have hc5 : c ≤ 5 := by rw [hc]; unfold tpCtsPackets; omega
   obtain ⟨hNd, hNq⟩ := rcv_solo b db m srcA j S' a0 mt [] k [] ((List.range c).map fun y => dtFrame srcA m (k + y)) hd hq
-  rw [poll_solo _ db hNd hNq (fun h => by simp [rcv, hnotp] at h) (by simp [rcv]; omega)]
+  rw [poll_solo _ db hNd hNq hib (fun h => by simp [rcv, hnotp] at h) (by simp [rcv]; omega)]
   have hrxq : (rcv b db m srcA j S' a0 mt [] k [] ((List.range c).map fun y => dtFrame srcA m (k + y))).rxq
       = (List.range c).map fun y => dtFrame srcA m (k + y) := rfl
   rw [hrxq]
@@ -83,14 +83,14 @@ theorem poll_window (k c mt : Nat) (hc : c = tpCtsPackets (tpPacketCount m.len))
 theorem poll_last (k c x mt : Nat) (hc : c = tpCtsPackets (tpPacketCount m.len))
     (hd : b.s.devs = [db]) (hq : Quiet b.s 0) (hsrc : srcA < 256) (hdst : m.dst = db.source)
     (hnone : findIdx (sessOf srcA db.source) S' = none) (hj : j < S'.length) (hlen : m.len ≤ 223) (hl : m.len ≤ m.data.length)
-    (hnotp : (b.tp 0).hasPending = false) (hkc : k % c = 0) (hx : 1 ≤ x ∧ x ≤ c)
+    (hnotp : (b.tp 0).hasPending = false) (hib : InfoIdle b 0) (hkc : k % c = 0) (hx : 1 ≤ x ∧ x ≤ c)
     (hend : m.len ≤ 7 * (k + x)) (hnot : 7 * (k + x - 1) < m.len) :
     ∃ S'', poll (rcv b db m srcA j S' a0 mt [] k [] ((List.range x).map fun y => dtFrame srcA m (k + y))) =
       b.upd b.tp S'' [delivered m srcA db.source]
         [cmFrame db.source srcA (endAckBytes m.pgn m.len (k + x))] [] := by
   have hc5 : c ≤ 5 := by rw [hc]; unfold tpCtsPackets; omega
   obtain ⟨hNd, hNq⟩ := rcv_solo b db m srcA j S' a0 mt [] k [] ((List.range x).map fun y => dtFrame srcA m (k + y)) hd hq
-  rw [poll_solo _ db hNd hNq (fun h => by simp [rcv, hnotp] at h) (by simp [rcv]; omega)]
+  rw [poll_solo _ db hNd hNq hib (fun h => by simp [rcv, hnotp] at h) (by simp [rcv]; omega)]
   have hrxq : (rcv b db m srcA j S' a0 mt [] k [] ((List.range x).map fun y => dtFrame srcA m (k + y))).rxq
       = (List.range x).map fun y => dtFrame srcA m (k + y) := rfl
   rw [hrxq]
@@ -114,7 +114,7 @@ theorem poll_last (k c x mt : Nat) (hc : c = tpCtsPackets (tpPacketCount m.len))
 
 /-- **the receiver polls with the RTS in its queue**: first CTS, the session slot is set up -/
 theorem poll_rts (hd : b.s.devs = [db]) (hq : Quiet b.s 0) (hsrc : srcA < 256) (hdst : m.dst = db.source)
-    (hlen : m.len ≤ 223) (hpgn : m.pgn < 2^24) (hnotp : (b.tp 0).hasPending = false)
+    (hlen : m.len ≤ 223) (hpgn : m.pgn < 2^24) (hnotp : (b.tp 0).hasPending = false) (hib : InfoIdle b 0)
     (hknown : (checkKnown m.pgn).1 = true ∨ ¬ b.onlyKnown = true)
     (hS : S' = b.slots.map (freeSess srcA db.source))
     (hj : findIdx (slotHit m.pgn srcA db.source true) S' = some j) (ha0 : S'[j]? = some a0) :
@@ -126,7 +126,7 @@ theorem poll_rts (hd : b.s.devs = [db]) (hq : Quiet b.s 0) (hsrc : srcA < 256) (
   generalize hN : b.upd b.tp b.slots [] [] [cmFrame srcA m.dst (announceBytes 16 m)] = N
   have hNq : Quiet N.s 0 := by subst hN; exact upd_quiet _ _ _ _ _ _ hq
   have hNd : N.s.devs = [db] := by subst hN; exact hd
-  rw [poll_solo N db hNd hNq (fun h => by subst hN; simp [hnotp] at h) (by subst hN; simp)]
+  rw [poll_solo N db hNd hNq (by subst hN; exact hib) (fun h => by subst hN; simp [hnotp] at h) (by subst hN; simp)]
   have hrx : N.rxq = [cmIn srcA db.source (announceBytes 16 m)] := by subst hN; rw [← hdst]; rfl
   rw [hrx]
   simp only [rxList, List.foldl_cons, List.foldl_nil]
@@ -163,7 +163,7 @@ def doneTp (a : Node) (m : Msg) (seq : Nat) : Nat → TpDev :=
 
 /-- **the sender polls with the EndOfMsgACK in its queue**: the transfer is over -/
 theorem poll_endack (a : Node) (d : Dev) (m : Msg) (peer seq t0 tmo nb np : Nat) (sl : List Slot) (out : List Delivery)
-    (hd : a.s.devs = [d]) (hq : Quiet a.s 0) (hm : m.dst = peer) (hpeer : peer < 255)
+    (hd : a.s.devs = [d]) (hq : Quiet a.s 0) (hi : InfoIdle a 0) (hm : m.dst = peer) (hpeer : peer < 255)
     (hpgn : m.pgn < 2^24) (htmo : tmo ≤ 100) (ht0 : t0 ≤ a.s.now ∧ a.s.now < t0 + tmo) (h64 : a.s.now + 100 < M64) :
     poll (a.upd (txTp a m seq t0 tmo) sl out [] [cmFrame peer d.source (endAckBytes m.pgn nb np)]) =
       a.upd (doneTp a m seq) sl out [] [] := by
@@ -177,7 +177,7 @@ theorem poll_endack (a : Node) (d : Dev) (m : Msg) (peer seq t0 tmo nb np : Nat)
     subst hN
     simp only [upd_tp, txTp, ↓reduceIte, upd_flavor, upd_now]
     exact isTime_fromNow_early _ _ _ _ ht0.1 ht0.2 (by omega) (by omega)
-  rw [poll_solo N d hNd hNq (fun _ => hNt) (by subst hN; simp)]
+  rw [poll_solo N d hNd hNq (by subst hN; exact hi) (fun _ => hNt) (by subst hN; simp)]
   have hrx : N.rxq = [cmIn peer d.source (endAckBytes m.pgn nb np)] := by subst hN; rfl
   rw [hrx]
   simp only [rxList, List.foldl_cons, List.foldl_nil]
@@ -208,6 +208,6 @@ theorem poll_endack (a : Node) (d : Dev) (m : Msg) (peer seq t0 tmo nb np : Nat)
   unfold Node.upd
   congr 1
   funext j
-  by_cases hj : j = 0 <;> simp [txTp, doneTp, hj]
+  by_cases hj : j = 0 <;> simp [txTp, doneTp, hj, hi.1, hi.2]
 
 end N2k.TP
